@@ -322,6 +322,15 @@ def structural_no_write_before_apply(repo):
 
 STRUCTURAL = [structural_no_write_before_apply]
 
+
+def _standin(repo, seed, tier):
+    from pyvc.standin import run_standin
+    return run_standin('C07', tier, seed, repo)
+
+
+_standin.tiers = ('quick', 'thorough')
+BOUNDED = [_standin]
+
 NOT_DECIDED = [
     'that the new code means the same (C05/C06)', 'difflib and parso correctness (assumed contracts)',
     '(a) get_diff header/body composition and (f) exception-escape obligations of extract.py: contracts pending',
